@@ -126,6 +126,13 @@ def q1(ctx):
         if idx[0] == "field" and idx[1][0] == "variant" and idx[1][2] == "Ok" and len(st) == 1:
             v = strip_role(ins.role_of_rvalue(st[0]["rv"]))
             oko = v[0] == "agg" and [strip_role(x) for x in v[2]] == [P(ins, 2), P(ins, 3)]
+        # value-only overwrite `self.map[i].1 = r`: the key found at Ok(i) IS l, so leaving it in place is the same store
+        stv = [s for bi, si, s in ins.statements() if s["k"] == "assign" and s["lhs"]["l"] == d and len(s["lhs"]["p"]) == 2 and s["lhs"]["p"][0] == "*"
+               and isinstance(s["lhs"]["p"][1], dict) and s["lhs"]["p"][1].get("f") == "1"]
+        stk = [s for bi, si, s in ins.statements() if s["k"] == "assign" and s["lhs"]["l"] == d and len(s["lhs"]["p"]) == 2 and s["lhs"]["p"][0] == "*"
+               and isinstance(s["lhs"]["p"][1], dict) and s["lhs"]["p"][1].get("f") == "0"]
+        if idx[0] == "field" and idx[1][0] == "variant" and idx[1][2] == "Ok" and not st and len(stv) == 1 and not stk:
+            oko = strip_role(ins.role_of_rvalue(stv[0]["rv"])) == P(ins, 3)
     ctx.check(len(ow) == 1 and oko, "overwrite-at-ok-index", "an existing key is overwritten in place at Ok(i) with (l, r) (same key, so order is kept)",
               "insert overwrites at a position other than search's Ok index, or with a different key", where_of(ins))
     # remove
@@ -480,9 +487,35 @@ def q3(ctx):
         ok = ok and role_mentions_call(tu.role_of_local(0), "clone") or (ok and any(x.callee and x.callee.name == "clone" and strip_role(tu.role_of_operand(x.args[0])) == ("param", "self") for x in tu.calls))
     ctx.check(bool(ok), "try-union-adds-others-pairs", "try_union = self.clone() + every pair of other", "try_union no longer inserts every pair (x, y) of other into a copy of self", where_of(tu))
     # union, From<[(Slot, Slot); N]>, FromIterator: every pair of the source is inserted, key first, on every path through an iteration
+    P = lambda body, i: ("param", body.var_names.get(i))      # parameters by position
+
+    def insert_like(tgt):
+        """SlotMap::insert, or a small SlotMap method that forwards (self, key, value) to it on every path (`insert_new`)"""
+        if tgt == "slotmap::SlotMap::insert":
+            return True
+        hb = crate.bodies.get(tgt)
+        if hb is None or hb.impl_self != SM or hb.argc != 3 or len(hb.blocks) > 14:
+            return False
+        fw = [c for c in hb.calls if c.callee and c.callee.target == "slotmap::SlotMap::insert" and not hb.blocks[c.bb]["cleanup"]]
+        return len(fw) == 1 and [strip_role(hb.role_of_operand(a)) for a in fw[0].args] == [P(hb, 1), P(hb, 2), P(hb, 3)] and hb.must_pass([0], hb.return_blocks(), {fw[0].bb})
+
     def every_pair_inserted(b, what):
-        ins_ = [c for c in b.calls if c.callee and c.callee.target == "slotmap::SlotMap::insert" and not b.blocks[c.bb]["cleanup"]]
+        ins_ = [c for c in b.calls if c.callee and insert_like(c.callee.target) and not b.blocks[c.bb]["cleanup"]]
         if not ins_:
+            # `source.into_iter().for_each(|(x, y)| out.insert(x, y))`: the closure runs for every pair; it inserts its own pair, key first
+            for fe in b.calls:
+                if fe.callee and fe.callee.name == "for_each" and not b.blocks[fe.bb]["cleanup"] and len(fe.args) == 2:
+                    cl_ = C._closure_of_role(crate, b.role_of_operand(fe.args[1]))
+                    src = strip_role(b.role_of_operand(fe.args[0]))
+                    while isinstance(src, tuple) and src[0] == "call" and src[1] in ("into_iter", "iter", "copied", "cloned") and src[3]:
+                        src = strip_role(src[3][0])
+                    if hasattr(cl_, "calls") and isinstance(src, tuple) and src[0] == "param":
+                        ci = [c for c in cl_.calls if c.callee and insert_like(c.callee.target) and not cl_.blocks[c.bb]["cleanup"]]
+                        if len(ci) == 1 and cl_.must_pass([0], cl_.return_blocks(), {ci[0].bb}):
+                            k_, v_ = role_str(strip_role(cl_.role_of_operand(ci[0].args[1])), 12), role_str(strip_role(cl_.role_of_operand(ci[0].args[2])), 12)
+                            if k_.endswith(".0") and v_.endswith(".1") and k_[:-2] == v_[:-2]:
+                                return True, "for_each"
+                            return False, "the for_each closure inserts (%s, %s)" % (k_[-30:], v_[-30:])
             # delegation (`pairs.into_iter().collect()`, `Self::from_iter(..)`): the delegate is checked where it is defined
             return any(c.callee and c.callee.name in ("collect", "from_iter", "union", "try_union") and not b.blocks[c.bb]["cleanup"] for c in b.calls), "delegates"
         if len(ins_) != 1:
